@@ -236,13 +236,10 @@ class ReedMullerCodeEncoder(LinearBlockCodeEncoder):
                 - Decoded message(s)
                 - Syndrome (difference between closest valid codeword and received word)
         """
-        # Make input a batch
-        if x.dim() == 1:
-            y2d = x.unsqueeze(0)
-            single = True
-        else:
-            y2d = x
-            single = False
+        # Make input a batch of codewords (any leading dimensions are flattened and restored below)
+        leading_shape = x.shape[:-1]
+        y2d = x.reshape(-1, x.shape[-1])
+        single = x.dim() == 1
         device = y2d.device
 
         # Enumerate all possible messages (2^k of them)
@@ -265,7 +262,7 @@ class ReedMullerCodeEncoder(LinearBlockCodeEncoder):
 
         if single:
             return decoded[0], syndrome[0]
-        return decoded, syndrome
+        return decoded.reshape(*leading_shape, -1), syndrome.reshape(*leading_shape, -1)
 
     def calculate_syndrome(self, y: torch.Tensor):
         """Return the syndrome (error pattern) for given codeword(s).
